@@ -7,18 +7,19 @@ namespace GoluaVerif.Model.Marshal
 open GoluaVerif
 open GoluaVerif.Model.Pack (leBytes ofLE leBytes_length ofLE_leBytes)
 
-/-- sizes that Go can allocate: at most 2^48 bytes per `make` -/
-def okLen (n elem : Nat) : Prop := n * elem ≤ 2 ^ 48
+/-- a length that fits the int64 size field (any Go slice or string does) -/
+def okLen (n _elem : Nat) : Prop := n < 2 ^ 63
 
 mutual
-/-- every length in the tree fits the size fields and Go's allocator -/
+/-- every length in the tree fits its int64 size field and the upvalue / register / cell counts are not negative -/
 def wf : Const → Prop
   | .int _ => True
   | .float _ => True
   | .str s => okLen s.length 1
-  | .code src name ops lines ks _ _ _ ups =>
+  | .code src name ops lines ks uv rc cc ups =>
     okLen src.length 1 ∧ okLen name.length 1 ∧ okLen ops.length 4 ∧ okLen lines.length 4 ∧ okLen ks.length 16 ∧
-    okLen ups.length 16 ∧ (∀ u ∈ ups, okLen u.length 1) ∧ wfs ks
+    okLen ups.length 16 ∧ (∀ u ∈ ups, okLen u.length 1) ∧ wfs ks ∧
+    (uv.toNat < 2 ^ 15 ∧ rc.toNat < 2 ^ 15 ∧ cc.toNat < 2 ^ 15)      -- the three int16 counts are not negative
 def wfs : List Const → Prop
   | [] => True
   | k :: ks => wf k ∧ wfs ks
@@ -40,35 +41,21 @@ theorem takeN_append (w post : Bytes) (n : Nat) (h : w.length = n) : takeN n (w 
 theorem getU_leBytes (k x : Nat) (post : Bytes) : getU k (leBytes k x ++ post) = .ok (x % 256 ^ k, post) := by
   simp [getU, takeN_append _ _ _ (leBytes_length k x), ofLE_leBytes]
 
-theorem getSize_leBytes (elem n : Nat) (post : Bytes) (h : okLen n elem) (he : 1 ≤ elem) (hp : n ≤ post.length) :
-    getSize elem (leBytes 8 n ++ post) = .ok (n, post) := by
-  unfold okLen at h
-  have hn : n ≤ 2 ^ 48 := by
-    calc n = n * 1 := by omega
-      _ ≤ n * elem := Nat.mul_le_mul_left n he
-      _ ≤ 2 ^ 48 := h
+theorem getSize_leBytes (item n : Nat) (post : Bytes) (h : n < 2 ^ 63) (hp : n ≤ post.length / item) :
+    getSize item (leBytes 8 n ++ post) = .ok (n, post) := by
   have hmod : n % 256 ^ 8 = n := by omega
   unfold getSize
   rw [getU_leBytes, hmod]
   simp only
   have h1 : ¬ n ≥ 2 ^ 63 := by omega
-  have h2 : ¬ n * elem > maxAlloc := by unfold maxAlloc; omega
-  have h3 : ¬ (n * elem > allocLimit ∧ n > post.length) := by omega
-  simp [h1, h2, h3]
+  have h2 : ¬ n > post.length / item := by omega
+  simp [h1, h2]
 
 theorem getStr_putStr (s post : Bytes) (h : okLen s.length 1) : getStr (putStr s ++ post) = .ok (s, post) := by
   unfold getStr putStr
-  rw [List.append_assoc, getSize_leBytes 1 s.length (s ++ post) h (by omega) (by simp)]
+  rw [List.append_assoc, getSize_leBytes 1 s.length (s ++ post) h (by simp)]
   simp only
-  by_cases h0 : s.length = 0
-  · have : s = [] := List.eq_nil_of_length_eq_zero h0
-    subst this; simp
-  · have hne : (s ++ post).isEmpty = false := by
-      cases s with
-      | nil => simp at h0
-      | cons a t => simp
-    have hpad : ¬ (s.length - (s ++ post).length > 2 ^ 20) := by simp
-    simp [h0, hne]
+  exact takeN_append s post s.length rfl
 
 theorem ofNat32 (w : BitVec 32) : BitVec.ofNat 32 (w.toNat % 256 ^ 4) = w := by
   apply BitVec.eq_of_toNat_eq
@@ -91,7 +78,7 @@ theorem getWords_putWords (ws : List (BitVec 32)) (post : Bytes) :
 
 theorem putStr_length (s : Bytes) : (putStr s).length = 8 + s.length := by simp [putStr, leBytes_length]
 
-theorem putStrs_length_ge (ss : List Bytes) : ss.length ≤ (putStrs ss).length := by
+theorem putStrs_length_ge (ss : List Bytes) : 8 * ss.length ≤ (putStrs ss).length := by
   induction ss with
   | nil => simp [putStrs]
   | cons s t ih => simp [putStrs, putStr_length]; omega
@@ -161,7 +148,7 @@ theorem get_put : ∀ fuel : Nat,
         rw [getStr_putStr s post hw]
       | code src name ops lines ks uv rc cc ups =>
         simp only [wf] at hw
-        obtain ⟨w1, w2, w3, w4, w5, w6, w7, w8⟩ := hw
+        obtain ⟨w1, w2, w3, w4, w5, w6, w7, w8, w9⟩ := hw
         simp only [depth] at hd
         have hks := ih.2 ks
         simp only [putConst, List.cons_append, getConst]
@@ -171,16 +158,22 @@ theorem get_put : ∀ fuel : Nat,
         simp only [h1, h2, h3, if_false, if_true, List.append_assoc]
         rw [getStr_putStr src _ w1]; simp only
         rw [getStr_putStr name _ w2]; simp only
-        rw [getSize_leBytes 4 ops.length _ w3 (by omega) (by simp [putWords_length]; omega)]; simp only
+        rw [getSize_leBytes 4 ops.length _ w3 (by
+          rw [Nat.le_div_iff_mul_le (by omega)]; simp [putWords_length]; omega)]; simp only
         rw [getWords_putWords]; simp only
-        rw [getSize_leBytes 4 lines.length _ w4 (by omega) (by simp [putWords_length]; omega)]; simp only
+        rw [getSize_leBytes 4 lines.length _ w4 (by
+          rw [Nat.le_div_iff_mul_le (by omega)]; simp [putWords_length]; omega)]; simp only
         rw [getWords_putWords]; simp only
-        rw [getSize_leBytes 16 ks.length _ w5 (by omega) (by have := putConsts_length_ge ks; simp; omega)]; simp only
+        rw [getSize_leBytes 1 ks.length _ w5 (by have := putConsts_length_ge ks; simp; omega)]; simp only
         rw [hks _ (by omega) w8]; simp only
         rw [getU_leBytes]; simp only
         rw [getU_leBytes]; simp only
         rw [getU_leBytes]; simp only
-        rw [getSize_leBytes 16 ups.length _ w6 (by omega) (by have := putStrs_length_ge ups; simp; omega)]; simp only
+        have hneg : ¬ (uv.toNat % 256 ^ 2 ≥ 2 ^ 15 ∨ rc.toNat % 256 ^ 2 ≥ 2 ^ 15 ∨ cc.toNat % 256 ^ 2 ≥ 2 ^ 15) := by
+          have := uv.isLt; have := rc.isLt; have := cc.isLt; omega
+        rw [if_neg hneg]
+        rw [getSize_leBytes 8 ups.length _ w6 (by
+          rw [Nat.le_div_iff_mul_le (by omega)]; have := putStrs_length_ge ups; simp; omega)]; simp only
         rw [getStrs_putStrs ups post w7]
         simp only [ofNat16]
     · intro ks post hd hw
